@@ -57,6 +57,10 @@ type VC struct {
 	nextCell  int
 	nAlloc    int
 	A0        *Term
+	allocBase *Term            // current symbolic allocation base (A0, or a fresh base after a loop cut)
+	allocBases map[*Term]bool
+	cellTypes map[int]types.Type
+	dryWrites []writeRec
 	entry     *State
 	params    map[string]*SV
 	locals    map[string]*PtrV
@@ -80,6 +84,7 @@ type VC struct {
 	final     *State
 	topParams []Val
 	topResults []Val
+	concretize int
 	preSat    *Obligation
 	canary    *Obligation
 }
@@ -96,6 +101,7 @@ type Loop struct {
 	Children []*Loop
 	N        int
 	Pos      token.Pos
+	LiveOut  []ssa.Value
 }
 
 type FuncCtx struct {
@@ -219,6 +225,25 @@ func analyzeLoops(fn *ssa.Function) ([]*Loop, map[*ssa.BasicBlock]*Loop, []*ssa.
 			}
 		}
 	}
+	for _, L := range loops {
+		for _, b := range fn.Blocks {
+			if !L.Blocks[b] {
+				continue
+			}
+			for _, in := range b.Instrs {
+				v, ok := in.(ssa.Value)
+				if !ok || v.Referrers() == nil {
+					continue
+				}
+				for _, r := range *v.Referrers() {
+					if rb := r.Block(); rb != nil && !L.Blocks[rb] {
+						L.LiveOut = append(L.LiveOut, v)
+						break
+					}
+				}
+			}
+		}
+	}
 	loopOf := map[*ssa.BasicBlock]*Loop{}
 	for _, L := range loops {
 		if L.Parent != nil {
@@ -269,8 +294,10 @@ func (vc *VC) oblige(st *State, name, kind string, goal *Term, tags []string, sr
 	}
 	o := &Obligation{Name: full, Tags: tags, Kind: kind, PC: st.pc, Goal: goal, NAssume: len(vc.assumes), Taint: st.taint, Src: src, Fn: vc.fnName()}
 	vc.obls = append(vc.obls, o)
-	// once asserted, later code may rely on it
-	vc.assumes = append(vc.assumes, Implies(st.pc, goal))
+	// once asserted, later code may rely on it (end-of-path obligations have no later code)
+	if kind != "loop-keep" && kind != "post" && kind != "unwind" {
+		vc.assumes = append(vc.assumes, Implies(st.pc, goal))
+	}
 }
 
 func (vc *VC) fnName() string {
@@ -293,7 +320,11 @@ func funcDisplayName(fn *ssa.Function) string {
 }
 
 func (vc *VC) noteWrite(st *State, kind PtrKind, key string, base, idx *Term) {
-	if vc.dry > 0 || vc.discovery {
+	if vc.dry > 0 {
+		vc.dryWrites = append(vc.dryWrites, writeRec{kind: kind, key: key, base: base, idx: idx})
+		return
+	}
+	if vc.discovery {
 		return
 	}
 	vc.writes = append(vc.writes, writeRec{pc: st.pc, kind: kind, key: key, base: base, idx: idx, nAs: len(vc.assumes)})
@@ -303,7 +334,7 @@ func (vc *VC) loadFacts(st *State, v *Term, t types.Type) {
 	if v.Sort.Kind == SInt {
 		switch under(t).(type) {
 		case *types.Pointer, *types.Map, *types.Chan:
-			vc.assume(st, And(Ge(v, IntC(0)), Lt(v, Add(vc.A0, IntC(int64(vc.nAlloc))))))
+			vc.assume(st, And(Ge(v, IntC(0)), Lt(v, Add(vc.allocBase, IntC(int64(vc.nAlloc))))))
 			return
 		}
 	}
@@ -313,7 +344,7 @@ func (vc *VC) loadFacts(st *State, v *Term, t types.Type) {
 }
 
 func (vc *VC) freshRef() *Term {
-	r := Add(vc.A0, IntC(int64(vc.nAlloc)))
+	r := Add(vc.allocBase, IntC(int64(vc.nAlloc)))
 	vc.nAlloc++
 	return r
 }
@@ -453,6 +484,25 @@ func (vc *VC) mergeStates(ins []*State) *State {
 				out.heap[k] = Ite(s.pc, a, b)
 			}
 		}
+		// exported loop registers
+		for v, x := range s.xregs {
+			if out.xregs == nil {
+				out.xregs = map[ssa.Value]Val{}
+			}
+			y, ok := out.xregs[v]
+			if !ok {
+				out.xregs[v] = x
+				continue
+			}
+			if sameVal(x, y) {
+				continue
+			}
+			if m, ok := mergeVals(s.pc, x, y); ok {
+				out.xregs[v] = m
+			} else {
+				out.setTaint("incompatible values merged in a loop-exported register")
+			}
+		}
 		// defers: union by ID
 		if !sameDefers(out.defers, s.defers) {
 			out.defers = mergeDefers(out, s)
@@ -583,6 +633,7 @@ func (vc *VC) execRegion(fx *FuncCtx, L *Loop, entry *State, fr *Frame, entryPhi
 			incoming[to] = append(incoming[to], s)
 			return
 		}
+		vc.exportRegs(L, s, f)
 		exits[to] = append(exits[to], s)
 	}
 	first := true
@@ -615,6 +666,7 @@ func (vc *VC) execRegion(fx *FuncCtx, L *Loop, entry *State, fr *Frame, entryPhi
 					} else if vc.inLoop(fx, tgt, L) {
 						incoming[tgt] = append(incoming[tgt], s)
 					} else {
+						vc.exportRegs(L, s, fr)
 						exits[tgt] = append(exits[tgt], s)
 					}
 				}
@@ -659,12 +711,34 @@ func (vc *VC) execRegion(fx *FuncCtx, L *Loop, entry *State, fr *Frame, entryPhi
 		}
 		first = false
 		st.phis = nil
+		for v, x := range st.xregs {
+			if _, ok := fr.regs[v]; !ok {
+				fr.regs[v] = x
+			}
+		}
 		outs := vc.execBlock(fx, b, st, fr)
 		for _, o := range outs {
 			route(b, o.to, o.st, fr)
 		}
 	}
 	return exits, backs
+}
+
+// exportRegs copies the registers that are live after loop L from the iteration frame into the state.
+func (vc *VC) exportRegs(L *Loop, s *State, f *Frame) {
+	if L == nil {
+		return
+	}
+	for _, v := range L.LiveOut {
+		if x, ok := f.get(v); ok {
+			if s.xregs == nil {
+				s.xregs = map[ssa.Value]Val{}
+			}
+			if _, have := s.xregs[v]; !have {
+				s.xregs[v] = x
+			}
+		}
+	}
 }
 
 // ---------- loops ----------
@@ -683,9 +757,21 @@ type snapshot struct {
 
 // loopWrites finds, by a dry run of the body with opaque branch conditions, which cells and
 // heap keys the loop may modify.
-func (vc *VC) loopWrites(fx *FuncCtx, L *Loop, st *State, fr *Frame) (cells []int, keys []string) {
+func (vc *VC) isFreshRef(t *Term) bool {
+	if t == nil {
+		return false
+	}
+	if t == vc.allocBase {
+		return true
+	}
+	return t.Op == "+" && len(t.Args) == 2 && t.Args[0] == vc.allocBase && t.Args[1].IsConst && t.Args[1].Int.Sign() >= 0
+}
+
+func (vc *VC) loopWrites(fx *FuncCtx, L *Loop, st *State, fr *Frame) (cells []int, keys []string, freshOnly map[string]bool) {
 	vc.dry++
 	savedCell, savedAlloc := vc.nextCell, vc.nAlloc
+	savedDW := vc.dryWrites
+	vc.dryWrites = nil
 	s0 := st.clone()
 	s0.pc = Fresh("dry", BoolSort)
 	f := newFrame(fr)
@@ -700,6 +786,22 @@ func (vc *VC) loopWrites(fx *FuncCtx, L *Loop, st *State, fr *Frame) (cells []in
 	exits, backs := vc.execRegion(fx, L, s0, f, ephi)
 	vc.dry--
 	vc.nextCell, vc.nAlloc = savedCell, savedAlloc
+	notFresh := map[string]bool{}
+	for _, w := range vc.dryWrites {
+		if w.base == nil {
+			// key-level havoc
+			for _, name := range vc.reg.sorted() {
+				if w.key == "*" || keyHasPrefix(name, w.key) {
+					notFresh[name] = true
+				}
+			}
+			continue
+		}
+		if !vc.isFreshRef(w.base) {
+			notFresh[w.key] = true
+		}
+	}
+	vc.dryWrites = append(savedDW, vc.dryWrites...)
 	cm := map[int]bool{}
 	km := map[string]bool{}
 	diff := func(s *State) {
@@ -731,8 +833,12 @@ func (vc *VC) loopWrites(fx *FuncCtx, L *Loop, st *State, fr *Frame) (cells []in
 		cells = append(cells, id)
 	}
 	sort.Ints(cells)
+	freshOnly = map[string]bool{}
 	for k := range km {
 		keys = append(keys, k)
+		if ki := vc.reg.m[k]; ki != nil && ki.Dims >= 1 && !notFresh[k] {
+			freshOnly[k] = true
+		}
 	}
 	sort.Strings(keys)
 	return
@@ -768,10 +874,14 @@ func (vc *VC) execLoop(fx *FuncCtx, L *Loop, st *State, fr *Frame, ins []*State)
 		}
 		ephi[phi] = v
 	}
-	if spec != nil && spec.Unroll > 0 {
+	if (spec != nil && spec.Unroll > 0) || vc.concretize > 0 {
 		cur := st
 		curPhi := ephi
-		for k := 0; k <= spec.Unroll && cur != nil; k++ {
+		bound := vc.concretize
+		if spec != nil && spec.Unroll > bound {
+			bound = spec.Unroll
+		}
+		for k := 0; k <= bound && cur != nil; k++ {
 			f := newFrame(fr)
 			exits, backs := vc.execRegion(fx, L, cur, f, curPhi)
 			for t, ss := range exits {
@@ -799,7 +909,7 @@ func (vc *VC) execLoop(fx *FuncCtx, L *Loop, st *State, fr *Frame, ins []*State)
 			cur = vc.mergeStates(backs)
 			cur.phis = nil
 		}
-		if cur != nil {
+		if cur != nil && vc.concretize == 0 {
 			vc.oblige(cur, lname+":unwind", "unwind", False(), tagsOf(fx.fc), fmt.Sprintf("loop %d executes at most %d times", L.N, spec.Unroll))
 		}
 		return exitsAll
@@ -831,7 +941,14 @@ func (vc *VC) execLoop(fx *FuncCtx, L *Loop, st *State, fr *Frame, ins []*State)
 		}
 		vc.oblige(st, lname+":init:"+c.Label, "loop-init", g, tagsOf(fx.fc), c.Src)
 	}
-	cells, keys := vc.loopWrites(fx, L, st, fr)
+	// objects allocated by earlier iterations lie between the old and the new allocation base
+	oldBase, oldN := vc.allocBase, vc.nAlloc
+	newBase := Fresh(fmt.Sprintf("ab.loop%d", L.N), IntSort)
+	vc.addGlobalFact(Ge(newBase, Add(oldBase, IntC(int64(oldN)))))
+	vc.allocBase, vc.nAlloc = newBase, 0
+	vc.allocBases[newBase] = true
+	cells, keys, freshOnly := vc.loopWrites(fx, L, st, fr)
+	vc.nAlloc = 0
 	h := st.clone()
 	for _, id := range cells {
 		old := h.cells[id]
@@ -840,10 +957,19 @@ func (vc *VC) execLoop(fx *FuncCtx, L *Loop, st *State, fr *Frame, ins []*State)
 		for _, f := range facts {
 			vc.assume(h, f)
 		}
+		for _, r := range refComponents(fv) {
+			vc.assume(h, Lt(r, newBase))
+		}
 	}
 	for _, k := range keys {
 		ki := vc.reg.m[k]
-		h.heap[k] = Fresh(fmt.Sprintf("loop%d:%s", L.N, k), ki.Sort)
+		nh := Fresh(fmt.Sprintf("loop%d:%s", L.N, k), ki.Sort)
+		if freshOnly[k] {
+			// the loop writes this key only in objects it allocates itself: older objects are untouched
+			r := Bound("r", IntSort)
+			vc.assume(h, Forall([]*Term{r}, Implies(Lt(r, Add(oldBase, IntC(int64(oldN)))), Eq(Select(nh, r), Select(st.heapVar(ki), r)))))
+		}
+		h.heap[k] = nh
 	}
 	hphi := map[*ssa.Phi]Val{}
 	for phi := range ephi {
@@ -900,6 +1026,25 @@ func (vc *VC) specError(st *State, name string, c *Clause, err error) {
 	full := vc.fnName() + "#" + name
 	o := &Obligation{Name: full, Kind: "stale", PC: st.pc, Goal: False(), NAssume: len(vc.assumes), Taint: "contract clause cannot be resolved: " + err.Error(), Src: c.Src, Fn: vc.fnName()}
 	vc.obls = append(vc.obls, o)
+}
+
+// refComponents lists the reference-valued parts of a value that name backing arrays or objects.
+func refComponents(v Val) []*Term {
+	switch x := v.(type) {
+	case *SliceV:
+		return []*Term{x.Arr}
+	case *PtrV:
+		if x.Kind == PHeap && x.Base != nil {
+			return []*Term{x.Base}
+		}
+	case *StructV:
+		var out []*Term
+		for _, f := range x.F {
+			out = append(out, refComponents(f)...)
+		}
+		return out
+	}
+	return nil
 }
 
 // freshLike makes an unconstrained value with the same shape as v.
